@@ -661,6 +661,10 @@ func Request(t *rapid.T, tb model.TableSpec, cfg Cfg) model.ReqSpec {
 		}
 	case x < 8:
 		ct = pick(t, "ct", MediaPool)
+	case x == 9 && chance(t, "ctwild", 30):
+		// a wildcard is something an Accept header or a Consumes list may say, not a Content-Type:
+		// it names no media type a route consumes
+		ct = pick(t, "ctwild", []string{"*/*", "*/*; charset=utf-8", "application/*"})
 	case x == 8 && chance(t, "ctlist", 40):
 		// not a documented input, but an "arbitrary Content-Type string" all the same: a list
 		ct = pick(t, "ct", MediaPool) + pick(t, "ctsep", []string{",", ", ", " ,"}) + pick(t, "ct2", MediaPool)
